@@ -136,7 +136,7 @@ func (x *Run) binop(fr *Frame, st *State, op token.Token, a, b Val, ty types.Typ
 			st.assume(eq(app("strlen", r.T), fmt.Sprintf("(+ %s %s)", app("strlen", a.T), app("strlen", b.T))))
 			return r
 		case token.LSS, token.GTR, token.LEQ, token.GEQ:
-			lt := x.d.fun("strlt", []Sort{SStr, SStr}, SBool)
+			lt, _ := x.strOrderAxioms()
 			switch op {
 			case token.LSS:
 				return bo(app(lt, a.T, b.T))
@@ -726,6 +726,7 @@ func (x *Run) enterLoopHeader(fr *Frame, from, to *ssa.BasicBlock, st *State, lp
 		for _, name := range sortedKeys(ms.arrs) {
 			x.havocArr(st, name)
 		}
+		x.flushZeroAxioms(st)
 	}
 	if ann != nil && ann.Inv != nil {
 		x.assumeLoopInv(fr, st, lp, ann)
@@ -876,6 +877,9 @@ func forall(vars []string, sorts []Sort, body string) string {
 	var bs []string
 	for i, v := range vars {
 		bs = append(bs, fmt.Sprintf("(%s %s)", v, sorts[i]))
+	}
+	if pat := inferPatterns(vars, body); pat != "" {
+		return fmt.Sprintf("(forall (%s) (! %s :pattern %s))", strings.Join(bs, " "), body, pat)
 	}
 	return fmt.Sprintf("(forall (%s) %s)", strings.Join(bs, " "), body)
 }
